@@ -43,9 +43,10 @@ MOLS_QUICK = [
     {"label": "H2", "xyz": chem.chain(2, 0.74), "q": 0, "spin": 0, "basis": "sto-3g", "frozen": None, "uhf": False},
     {"label": "H3+", "xyz": chem.chain(3, 0.9), "q": 1, "spin": 0, "basis": "sto-3g", "frozen": None, "uhf": False},
     {"label": "H3", "xyz": chem.chain(3, 1.0), "q": 0, "spin": 1, "basis": "sto-3g", "frozen": None, "uhf": False},
+    # two occupied and two virtual orbitals (several pair excitations, layer packing); quick tier: pUCCD and UCCSD/JW only
+    {"label": "H4", "xyz": chem.chain(4, 1.0), "q": 0, "spin": 0, "basis": "sto-3g", "frozen": None, "uhf": False},
 ]
 MOLS_THOROUGH = MOLS_QUICK + [
-    {"label": "H4", "xyz": chem.chain(4, 1.0), "q": 0, "spin": 0, "basis": "sto-3g", "frozen": None, "uhf": False},
     {"label": "H2uhf", "xyz": chem.chain(2, 1.5), "q": 0, "spin": 0, "basis": "sto-3g", "frozen": None, "uhf": True},
     {"label": "H4trip", "xyz": chem.chain(4, 1.1), "q": 0, "spin": 2, "basis": "sto-3g", "frozen": None, "uhf": False},
     {"label": "H3+uhf", "xyz": chem.chain(3, 1.0), "q": 1, "spin": 0, "basis": "sto-3g", "frozen": None, "uhf": True},
@@ -61,6 +62,8 @@ def cases(tier, seed):
             maps = ["HCB"] if kind == "pUCCD" else (["JW"] if kind in ("UCC1", "UCC3", "VarCircuit") else MAPPINGS)
             for mp in maps:
                 for utd in ((False,) if kind in ("UCC1", "UCC3", "VarCircuit", "pUCCD") else (False, True)):
+                    if tier == "quick" and m["label"] == "H4" and not (kind == "pUCCD" or (kind == "UCCSD" and mp == "JW" and not utd)):
+                        continue
                     if tier == "quick":
                         # quick: every kind on H2 with all encodings; on the larger molecules JW + one other encoding
                         if mi > 0 and mp not in ("JW", MAPPINGS[1 + (len(out) % 3)]) and mp != "HCB":
